@@ -74,6 +74,9 @@ def make_request(rng, kind, path=None):
     q = rng.choice(PATHS)
     f = p.rstrip("/") or "a"
     if kind == "static":
+        if f in ("a", "a/b", "d"):
+            # a directory on disk: api.static() classifies it as a tree, it never sends it as a file
+            return {"a": "raw", "name": "declare_static", "args": [[f + "/"], [], []]}
         return {"a": "raw", "name": "declare_static", "args": [[], [f], []]}
     if kind == "tree":
         # api.static() only sends a tree for an existing directory
